@@ -4,7 +4,13 @@
 //! Every mode records its task choices and its data draws.
 
 use shuttle::scheduler::{Schedule, Scheduler, Task, TaskId};
-use simcore::Rng;
+use simcore::events::{self, TaskCtx};
+use simcore::{zone, Rng};
+use std::sync::atomic::{AtomicU64, Ordering};
+
+/// Number of times the running task changed (read by the job-snapshot oracle: a job that
+/// saw a switch between its begin and its end was not atomic).
+pub static SWITCHES: AtomicU64 = AtomicU64::new(0);
 use std::sync::{Arc, Mutex};
 
 #[derive(Clone, Debug)]
@@ -38,6 +44,10 @@ pub struct SimScheduler {
     pos: usize,
     dpos: usize,
     last: Option<usize>,
+    /// per-task context (allocation zone, current job, client), swapped at EVERY
+    /// scheduling point - also those the harness does not make itself (locks / atomics
+    /// inside the library, redirected to shuttle by the source shim)
+    ctx: Vec<Option<TaskCtx>>,
 }
 
 impl SimScheduler {
@@ -51,6 +61,7 @@ impl SimScheduler {
             pos: 0,
             dpos: 0,
             last: None,
+            ctx: vec![],
         }
     }
 }
@@ -79,10 +90,11 @@ impl Scheduler for SimScheduler {
         self.pos = 0;
         self.dpos = 0;
         self.last = None;
+        self.ctx.clear();
         Some(Schedule::new(seed))
     }
 
-    fn next_task(&mut self, runnable: &[&Task], _current: Option<TaskId>, _is_yielding: bool) -> Option<TaskId> {
+    fn next_task(&mut self, runnable: &[&Task], current: Option<TaskId>, _is_yielding: bool) -> Option<TaskId> {
         if runnable.is_empty() {
             return None;
         }
@@ -165,8 +177,19 @@ impl Scheduler for SimScheduler {
         };
         let id = runnable[pick].id();
         let idn = usize::from(id);
+        // swap the per-task context
+        if let Some(cur) = current {
+            let c = usize::from(cur);
+            if self.ctx.len() <= c {
+                self.ctx.resize(c + 1, None);
+            }
+            self.ctx[c] = Some(events::save_ctx());
+        }
+        let next_ctx = self.ctx.get(idn).copied().flatten().unwrap_or(TaskCtx { zone: zone::OFF, job: events::NO_JOB, client: events::current_client() });
+        events::restore_ctx(next_ctx);
         if self.last != Some(idn) {
             sh.context_switches += 1;
+            SWITCHES.fetch_add(1, Ordering::Relaxed);
         }
         self.last = Some(idn);
         sh.choices.push(idn as u32);
